@@ -63,6 +63,12 @@ CHECKS = {
          'instance pins x 3 contexts; every library cell x pin subsets; all orders of multi-instance designs with empty implementations; compared by '
          'truth table over ports and state elements, names/order, and the C09 invariants',
          'trusted: reference graph evaluator; two readings accepted for an open input of a variadic gate', 'DESIGN.md section 4 C10'),
+
+ 'C03': ('exploration', 'bounded exhaustive enumeration at kernel and simulator seams vs. Boolean reference on initial/final values',
+         'W1: every primitive x every tuple of input waveforms over a time grid x delay-table combinations x output capacities (incl. overflowing ones) through the real '
+         'kernel function; W2: family circuits x all {0,1,R,F} stimuli and multi-transition inputs x deviation-bounded delay plans x capacity vectors through WaveSim; '
+         'every line waveform is decoded and checked for initial value, parity-final value and terminator',
+         'trusted: mc/ref.py Boolean reference, waveform decoder in mc/wsim.py; dyadic times (exact arithmetic); memory reuse off', 'DESIGN.md section 4 C03'),
 }
 
 NOT_YET = 'check not built yet in this session (see DESIGN.md build order); will be claimed once its exhaustive check exists'
